@@ -228,7 +228,9 @@ def check(ctx):
         ctx.ok(fs.fn, fs.ret, "every path: box stage, then row selections only")
     for caller, call in R.filter_calls():
         bb = bind_args(fs.fn, call)
-        pair = (canon(bb.get(fs.p_lo)), canon(bb.get(fs.p_hi)))
+        from .common import deref_canon as _dcp1
+
+        pair = (_dcp1(prog, caller, bb.get(fs.p_lo)), _dcp1(prog, caller, bb.get(fs.p_hi))) if bb.get(fs.p_lo) is not None and bb.get(fs.p_hi) is not None else (None, None)
         if pair in HARD_BOUNDS - {("lb", "ub")} or pair in SEARCH_BOUNDS:
             ctx.ok(caller, call, f"filtered against {pair}")
         else:
